@@ -111,6 +111,16 @@ for pid in sorted(md.CLAIMED):
         else:
             c["text"] = c["text"] + "  Round 11: " + text + "."
         c["technique"] = c["technique"] + "; " + tech
+    add11t = getattr(md, "ADDENDA_R11T", {}).get(pid)
+    if add11t:
+        ref, text, tech = add11t
+        c["design_ref"] = c["design_ref"] + ", " + ref
+        if "  Not decided:" in c["text"]:
+            head, tail = c["text"].split("  Not decided:", 1)
+            c["text"] = head + "  Round-11 triage: " + text + ".  Not decided:" + tail
+        else:
+            c["text"] = c["text"] + "  Round-11 triage: " + text + "."
+        c["technique"] = c["technique"] + "; " + tech
     checks.append({
         "property_id": pid,
         "quick_cmd": "./check %s --tier quick" % pid,
